@@ -358,6 +358,9 @@ func (ep *sentEpisode) refresh() string {
 			result = "failed"
 		}
 	}()
+	if result == "panic" {
+		ep.client = nil // c.mu and the single-flight call stay locked after a panic: abandon the client
+	}
 	return ep.snapshot(result)
 }
 
@@ -401,6 +404,9 @@ func (ep *sentEpisode) event(kind string, named bool, addr, variant int) string 
 		}()
 		cb(msg)
 	}()
+	if result == "panic" {
+		ep.client = nil
+	}
 	return ep.snapshot(result)
 }
 
